@@ -441,9 +441,14 @@ def _reader_obligation(mir, tier, sub, title):
                  'streams of 1..%d fragments with symbolic payload lengths 0..32761 at block-accurate offsets (trailers implied), every writer-producible type sequence; '
                  'file reads, decode_fixed, BlockRecord::try_from by contract; sub-cases: intact, cut at any byte, abandoned record prefix + reopen, one bad-checksum fragment' % M)
     t0 = time.time()
+    BUDGET_M4_CUT = 2400        # seconds; the cut sub-case with 4 fragments did not finish in 2 hours when run exhaustively
     for m in range(0, M + 1):
         pats = list(type_patterns(m, allow_abandoned=True)) if m else [([], [], None)]
+        t_m = time.time()
         for types, groups, aband, trs in [(t, g, a, tr) for (t, g, a) in pats for tr in trailer_splits(t)]:
+            if sub == 'cut' and m == 4 and aband is None and time.time() - t_m > BUDGET_M4_CUT:
+                res.cases['cut m=4: type sequences not explored (time budget of %d s)' % BUDGET_M4_CUT] = res.cases.get('cut m=4: type sequences not explored (time budget of %d s)' % BUDGET_M4_CUT, 0) + 1
+                continue
             # ---- intact and cut
             s = Stream(m, types, trailers=trs)
             cut = BitVec('cut', 64)
@@ -530,6 +535,9 @@ def o16_2_torn_append(mir, tier):
         types = ['Full'] * m
         q = BitVec('q', 64)
         for trs in trailer_splits(types):
+            if tier != 'quick' and time.time() - t0 > 2400:        # the six thorough shapes did not finish in 2 hours when run exhaustively
+                res.cases['not explored (time budget of 2400 s): a=%d b=%d' % (a, b)] = res.cases.get('not explored (time budget of 2400 s): a=%d b=%d' % (a, b), 0) + 1
+                continue
             s = Stream(m, types, torn={a: q}, trailers=trs)
             pre = s.pre + s.ok + [UGE(q, bv(1))]
             groups = [[i] for i in range(m) if i != a]
